@@ -2,6 +2,7 @@ SPECIFICATION Spec
 CONSTANTS Kind = "Solve"
  Sizes = {1, 2, 3, 4, 5, 6, 7, 8, 9, 10, 11, 12, 16, 17, 32, 33, 64, 65}
  WideForms = 1
+ BigLean = 0
 INVARIANT AdmissibleCases
 INVARIANT ConstructionRestores
 INVARIANT PermAlgebra
